@@ -83,6 +83,8 @@ class SD:
         module function under any name"""
         if getattr(self, "_place_fn", None) is not None:
             return self._place_fn
+        if getattr(self, "_place_inline", False):
+            return None
         ai = self.m(ENTRY, "assign_option_index")
         me = ("self", ENTRY)
         lp = P(ai, param_at(ai, 0, "options"))
@@ -96,6 +98,10 @@ class SD:
                         and contains(e.args[0], lambda s_: s_[0] == "attr" and s_[1] == me and s_[2] in ("options_1", "options_2")):
                     # (what exactly is handed over as the run - the whole of options_k - is judged by X1 pairs-stored)
                     cands[e.targets[0].qual] = e.targets[0]
+        if not cands:
+            self._place_fn = None  # no callee gets (run, shared list): the placement is written out in assign_option_index
+            self._place_inline = True
+            return None
         if len(cands) != 1:
             raise AnalysisError(f"{ai.qual}: cannot identify the function that places an option run in the shared array ({sorted(cands)})")
         self._place_fn = next(iter(cands.values()))
@@ -1086,6 +1092,10 @@ class SD:
                    "every entry, in order, is resolved against the message's option array" if ok else f"returns {show(rv)[:140]}")
         # ---- the run-placing function (_assign_option)
         ao = self.place_fn()
+        if ao is None:
+            self._placement_in_place(rule)
+            self._assign_all(rule)
+            return
         eo = P(ao, param_at(ao, 0, "entry_options"))
         ho = P(ao, param_at(ao, 1, "hdr_options"))
         find = prog.functions.get("header._find")
@@ -1179,6 +1189,84 @@ class SD:
             run.ob(rule, f"{ai.qual}:pairs-stored", bool(ok), loc(ai),
                    "(index, count) of run k come from placing options_k in the shared array and are stored in the fields the resolver reads" if ok else
                    f"assign_option_index returns {show(rv)[:160]}")
+        self._assign_all(rule)
+
+    def _placement_in_place(self, rule):
+        """the placement of the two runs written out in assign_option_index (no placing function): the same obligations, read
+        from the events of its own paths - per run k: empty -> (0, 0) and nothing appended; found -> the search result for
+        (shared, options_k), nothing appended; otherwise options_k is appended with extend() and indexed by len(shared)
+        evaluated before that extend (and after the extend of an earlier run)"""
+        run, prog = self.run, self.prog
+        me = ("self", ENTRY)
+        ai = self.m(ENTRY, "assign_option_index")
+        lp = P(ai, param_at(ai, 0, "options"))
+        eng = engine(prog, InlineOnly(names=(), props=True, max_depth=1, unroll=2))
+        idx_fields = ("option_index_1", "option_index_2", "num_options_1", "num_options_2")
+
+        def unwrap(tm):
+            while tm is not None and tm[0] == "call" and tm[1][0] == "ext" and tm[1][1] in ("tuple", "list") and len(tm[2]) == 1:
+                tm = tm[2][0]
+            return tm
+        kinds = set()
+        probs = {}
+        searchers = set()
+        n_paths = 0
+        for p in self.paths(ai, ENTRY, eng=eng):
+            if not p.returns():
+                probs.setdefault("total", f"may raise {p.outcome[1]}")
+                continue
+            rv = p.retval()
+            d = dict(rv[2]) if rv[0] == "replace" and rv[1] == me else {}
+            if not d:
+                continue  # copied unchanged (already assigned)
+            n_paths += 1
+            resolved = any(c[0] == "cmp" and c[1] in ("is", "==", "is not", "!=") and c[3] == const(None) and c[2][0] == "attr" and c[2][1] == me
+                           and c[2][2] in idx_fields and v == (c[1] in ("is", "==")) for c, v, _, _ in p.conds)
+            if not resolved:
+                probs.setdefault("places-only-resolved-entries", "the option runs are placed without establishing that the entry is resolved")
+            if d.get("options_1") != ("tuple", ()) or d.get("options_2") != ("tuple", ()):
+                probs.setdefault("pairs-stored", "the assigned entry keeps resolved option runs")
+            pos = {id(e): i for i, e in enumerate(p.events)}
+            exts = [e for e in p.events if e.kind == "call" and e.attrname in ("extend", "append", "insert") and e.recv == lp]
+            for k in ("1", "2"):
+                runk = ("attr", me, f"options_{k}")
+                oi, no = d.get(f"option_index_{k}"), d.get(f"num_options_{k}")
+                empty = [v for c, v, _, _ in p.conds if unwrap(c) == runk or (c[0] == "unop" and c[1] == "not" and unwrap(c[2]) == runk)]
+                is_empty = any((v is False) if (unwrap(c) == runk) else (v is True) for c, v, _, _ in p.conds
+                               if unwrap(c) == runk or (c[0] == "unop" and c[1] == "not" and unwrap(c[2]) == runk))
+                my_ext = [e for e in exts if e.args and unwrap(e.args[0]) == runk]
+                finds = [e for e in p.events if e.kind == "call" and e.targets and len(e.args) >= 2 and e.args[0] == lp and unwrap(e.args[1]) == runk]
+                for f_ in finds:
+                    searchers.add(f_.targets[0].qual)
+                if is_empty:
+                    kinds.add("empty")
+                    if not (oi == const(0) and no == const(0) and not my_ext):
+                        probs.setdefault("empty-run", f"an empty run {k} gets ({show(oi)[:30]}, {show(no)[:30]}) / is appended")
+                    continue
+                okn = no is not None and no[0] == "call" and no[1] == ("ext", "len") and len(no[2]) == 1 and unwrap(no[2][0]) == runk
+                if my_ext:
+                    kinds.add("append")
+                    e_ = my_ext[0]
+                    lens = [x for x in p.events if x.kind == "call" and x.ext == "len" and x.args == (lp,) and x.result == oi]
+                    ok = okn and len(my_ext) == 1 and e_.attrname == "extend" and bool(lens) and pos[id(lens[0])] < pos[id(e_)] \
+                        and not any(pos[id(lens[0])] < pos[id(x)] < pos[id(e_)] for x in exts if x is not e_)
+                    if not ok:
+                        probs.setdefault("append-run", f"run {k} is appended but indexed by {show(oi)[:50]} with count {show(no)[:30]}; "
+                                         "the index must be len(shared) evaluated just before extend(run)")
+                else:
+                    kinds.add("found")
+                    ok = okn and len(finds) == 1 and oi == finds[0].result
+                    if not ok:
+                        probs.setdefault("shared-run", f"run {k} is not appended but indexed by {show(oi)[:60]}: must be the position the search reported")
+        for key in ("total", "empty-run", "append-run", "shared-run", "pairs-stored", "places-only-resolved-entries"):
+            run.ob(rule, f"{ai.qual}:{key}", key not in probs, loc(ai), probs.get(key, f"{key}: holds on all {n_paths} assigning path(s) (placement written out in place)"))
+        run.ob(rule, f"{ai.qual}:cases", kinds == {"empty", "append", "found"}, loc(ai), f"cases present: {sorted(kinds)} (need empty / found / append)")
+        self._searchers = searchers
+
+    def _assign_all(self, rule):
+        run, prog = self.run, self.prog
+        hme = ("self", SDHDR)
+        ai = self.m(ENTRY, "assign_option_index")
         # ---- header.assign_option_indexes
         ha = self.m(SDHDR, "assign_option_indexes")
         for p in [p for p in self.paths(ha, SDHDR, eng=engine(prog, NoInline())) if p.returns()]:
@@ -1211,12 +1299,23 @@ class SD:
         # which function does _assign_option search with?
         eng0 = engine(prog, NoInline())
         targets = set()
-        for p in eng0.paths(ao):
-            for e in p.events:
-                if e.kind == "call" and e.targets and e.args[:2] == (P(ao, param_at(ao, 1, "hdr")), P(ao, param_at(ao, 0, "run"))):
-                    targets.add(e.targets[0].qual)
+        if ao is None:
+            targets = set(getattr(self, "_searchers", None) or ())
+            if not targets:
+                # not analysed yet in this run: find the call (shared, options_k) directly
+                ai_ = self.m(ENTRY, "assign_option_index")
+                lp_ = P(ai_, param_at(ai_, 0, "options"))
+                for p in engine(prog, InlineOnly(names=(), props=True, max_depth=1)).paths(ai_, recv=ENTRY):
+                    for e in p.events:
+                        if e.kind == "call" and e.targets and len(e.args) >= 2 and e.args[0] == lp_:
+                            targets.add(e.targets[0].qual)
+        else:
+            for p in eng0.paths(ao):
+                for e in p.events:
+                    if e.kind == "call" and e.targets and e.args[:2] == (P(ao, param_at(ao, 1, "hdr")), P(ao, param_at(ao, 0, "run"))):
+                        targets.add(e.targets[0].qual)
         if len(targets) != 1:
-            raise AnalysisError(f"{ao.qual}: cannot identify the search helper ({sorted(targets)})")
+            raise AnalysisError(f"{(ao or self.m(ENTRY, 'assign_option_index')).qual}: cannot identify the search helper ({sorted(targets)})")
         fi = prog.func(targets.pop())
         run.analysed(fi)
         hay = P(fi, param_at(fi, 0, "haystack"))
